@@ -101,8 +101,8 @@ def parseLines (look : Look) : List Line → List (Key × Str) → Except Err (L
 inductive Node
   | file (ls : List Line)
   | dir
-  | notdir   -- nothing exists at the path because a *parent* is a regular file: `os.Stat` fails with ENOTDIR,
-             -- which `os.IsNotExist` does not recognise
+  | notdir   -- nothing exists at the path because a *parent* is a regular file: `os.Stat` fails with ENOTDIR
+             -- (`fileIsMissing` treats it like ENOENT since the `fix:` commit; before, `os.IsNotExist` did not)
 deriving Repr, DecidableEq
 
 abbrev FS := Str → Option Node
@@ -125,16 +125,18 @@ def loadMappingFile (fs : FS) (path format : Str) (look : Look) : Except Err (Li
     if format ≠ [] then .error .format
     else parseLines look ls []
 
-/-- `loadEnvFile`: a missing file is an error only when required -/
+/-- `loadEnvFile`: a missing file (`fileIsMissing`: ENOENT or ENOTDIR) is an error only when required -/
 def loadEnvFile (fs : FS) (f : EnvFile) (look : Look) : Except Err (List (Key × Str)) :=
   match fs f.path with
   | none => if f.required then .error .notFound else .ok []
+  | some .notdir => if f.required then .error .notFound else .ok []
   | some _ => loadMappingFile fs f.path f.format look
 
 /-- `loadLabelFile`: a missing file is always an error -/
 def loadLabelFile (fs : FS) (path : Str) (look : Look) : Except Err (List (Key × Str)) :=
   match fs path with
   | none => .error .notFound
+  | some .notdir => .error .notFound
   | some _ => loadMappingFile fs path [] look
 
 /-- the `resolve` closure of `WithServicesEnvironmentResolved`: files parsed so far, then the project environment -/
